@@ -99,7 +99,7 @@ PROPS = {
              "Theorems: single-item kernels raise ValueError iff outside / RuntimeError iff budget; the list forms raise exactly "
              "what the first failing item raises and otherwise return the map of the items.",
              "offending item at every position of lists of length 2..5, thread counts {1,2,4,max}, outside by 1 ulp / far / NaN on each axis",
-             props="props/C13.v", oracle_n=(50, 400)),
+             props="props/C13.v", oracle_n=(50, 400), api_corr="api"),
     "C14": P(GI, INTERP, "proof",
              "Theorems over R on the generated interpolators: equal to the textbook multilinear formula inside the hull (hence node "
              "values, convexity, multilinear exactness, continuity across faces, axis-swap equivariance); fill value outside (any instance). "
